@@ -635,3 +635,65 @@ def _replay_watchdog(f):
     if not f['input'].get('then'):
         return watchdog_added_case(f['input']['session_up_during_reload']) is None
     return watchdog_case(f['input']['session_up_during_reload']) is None
+
+
+# ------------------------------------------------------------------------------------------------ templates
+
+TEMPLATES = {'t1': ['10.1.0.0/24'], 't2': ['10.2.0.0/24'], 't3': ['10.3.0.0/24', '10.3.1.0/24']}
+BASE = 'local-as 65000; peer-as 65001; router-id 192.0.2.9; local-address 127.0.0.1;'
+
+
+def template_text(blocks):
+    """blocks: [(address, (template names), [own prefixes])] in file order"""
+    out = ['template {']
+    for name, prefixes in TEMPLATES.items():
+        out.append(' neighbor %s { %s static { %s } }' % (name, BASE if name == 't1' else '', ' '.join(f'route {p} next-hop 192.0.2.1;' for p in prefixes)))
+    out.append('}')
+    for addr, names, own in blocks:
+        inherit = f'inherit {names[0]};' if len(names) == 1 else 'inherit [ %s ];' % ' '.join(names)
+        static = ' static { %s }' % ' '.join(f'route {p} next-hop 192.0.2.1;' for p in own) if own else ''
+        out.append('neighbor %s { %s %s%s }' % (addr, inherit, '' if 't1' in names else BASE, static))
+    return '\n'.join(out) + '\n'
+
+
+def template_case(blocks):
+    from exabgp.configuration.configuration import Configuration
+    from exabgp.rib import RIB
+
+    inp = {'blocks': [list(b[:1]) + [list(b[1]), list(b[2])] for b in blocks], 'configuration': template_text(blocks)}
+    RIB._cache.clear()
+    c = Configuration([template_text(blocks)], text=True)
+    try:
+        ok = c.reload()
+    except Exception as e:  # noqa
+        return {'what': f'configuration raised {type(e).__name__}: {str(e)[:160]}', 'input': inp}
+    if ok is not True:
+        return {'what': 'a configuration using templates in the documented forms (inherit <name>; inherit [ <name> <name> ];) was refused: ' + str(c.error).replace('\n', ' | ')[:200], 'input': inp}
+    got = {k.split()[1]: sorted(str(r.nlri.cidr.prefix()) if hasattr(r.nlri, 'cidr') else str(r.nlri) for r in n.routes) for k, n in c.neighbors.items()}
+    want = {addr: sorted(set(p for n in names for p in TEMPLATES[n]) | set(own)) for addr, names, own in blocks}
+    if got != want:
+        return {'what': 'the routes of a neighbor are not those of the templates it names plus its own (they depend on the other blocks of the file)', 'input': inp, 'expected': want, 'observed': got}
+    return None
+
+
+@bounded('C17', 'templates-in-any-order')
+def templates_in_any_order(tier, seed):
+    """PROPERTY: every peer ends up holding exactly the routes of the new configuration.  The routes of a neighbor are those of
+    the templates it inherits plus its own -- whatever the other neighbors inherit, in whatever order the blocks are."""
+    kinds = [(('t1',), []), (('t1', 't2'), []), (('t2',), []), (('t1', 't3'), ['10.9.0.0/24']), (('t2', 't1'), []), (('t3', 't2', 't1'), [])]
+    fails, evals, distinct = [], 0, set()
+    n = 2 if tier == 'quick' else 3
+    for combo in itertools.permutations(range(len(kinds)), n):
+        blocks = [('127.0.0.%d' % (2 + i), kinds[k][0], kinds[k][1]) for i, k in enumerate(combo)]
+        evals += 1
+        distinct.add(str(blocks))
+        f = template_case(blocks)
+        if f:
+            fails.append(f)
+    fails.sort(key=lambda f: len(f['input']['configuration']))
+    return {'evaluations': evals, 'distinct_nontrivial': len(distinct), 'bound': f'3 templates; every ordered choice of {n} neighbor blocks out of 6 kinds (one template, two or three in list form in either order, with and without routes of their own)', 'rule': 'one case = the ordered blocks; reference = union of the named templates and the own routes', 'samples': [{'blocks': [['127.0.0.2', ['t1', 't2'], []], ['127.0.0.3', ['t1'], []]]}], 'failures': fails}
+
+
+@replayer('C17', 'templates-in-any-order')
+def _replay_templates(f):
+    return template_case([(b[0], tuple(b[1]), list(b[2])) for b in f['input']['blocks']]) is None
